@@ -70,7 +70,9 @@ ssize_t HeaderStreamProto::onRecvData(const void *data_ptr, size_t data_size)
         return -2;
     }
 
-    if (content_size + kHeadSize > data_size)   //! 不够
+    //! data_size >= kHeadSize 已在上面保证；不能写成 content_size + kHeadSize，
+    //! 否则 content_size 接近 2^32 时 32 位加法回绕，下面会取到空指针
+    if (content_size > data_size - kHeadSize)   //! 不够
         return 0;
 
     const char *str_ptr = static_cast<const char*>(unpack.fetchNoCopy(content_size));
